@@ -211,8 +211,8 @@ def main():
                 if rc == 2:
                     rec["checks"][p]["tail"] = out[-400:]
             if rec["status"] == "survived" and "--tests" in args:
-                t = subprocess.run(["/venv/bin/python", "-m", "pytest", "-q", "-x", "-p", "no:cacheprovider", "-n", "16", "--timeout=900",
-                                    "--continue-on-collection-errors", "--deselect", "test/test_pytss.py"], cwd="/repo",
+                t = subprocess.run(["/venv/bin/python", "-m", "pytest", "-q", "-p", "no:cacheprovider", "-n", "16", "--timeout=900",
+                                    "--continue-on-collection-errors", "--ignore=test/test_pytss.py"], cwd="/repo",
                                    env=dict(os.environ, PYTHONPATH=os.path.join(scratch, "src"), PYTHONDONTWRITEBYTECODE="1"), capture_output=True, text=True)
                 rec["test_suite"] = t.stdout.strip().splitlines()[-1][:200] if t.stdout.strip() else "?"
         results[m["id"]] = rec
